@@ -14,7 +14,10 @@ their character codes (`_` = empty string); a separator as its character code.
   net  <sep> <h> <hdrR> <d> <posDir> <edges>     edges: `id,src,tgt,orient,x:y|x:y…;…` (ids in hex)
                                         → W:<hex> R:ok <edges> N:<nodes> | R:err:<kind>
   wkt  <d> <pts>   pts: `x:y|x:y…`      → W:<hex> R:ok x:y:z|… | R:err:<kind>
-  gpx  <geo> <rfmt> <name> <rows>       → W:<hex> R:ok <track>|<track> | R:err:<kind> -/
+  gpx  <geo> <rfmt> <name> <rows>       → W:<hex> R:ok <track>|<track> | R:err:<kind>
+  wktecef <n>                           → W:<hex> R:…                    (toWKT of an ECEF track of n points, parsed back)
+  wktparse <hex text>                   → ok x:y:z|… | err:<kind>        (TrackReader.parseWkt on any text)
+  gpxaf <geo> <rfmt> <name> <naf> <names> <rows>   the same with `af=True`: names `<hex>,…`, rows with af tokens -/
 namespace TV.Drv.C13
 open TV.TextIO TV.ObsTime TV.Drv
 
@@ -184,5 +187,34 @@ def handle (cmd : String) (args : List String) : String :=
         | .error e => s!"err:{e}"
       s!"W:{toHex text} R:{r}"
     | _, _, _, _ => "bad-request"
+  | "wktecef", [n] =>
+    match n.toNat? with
+    | some n =>
+      let text := toWKTEcef n
+      let r := match parseWkt text with
+        | .ok vs => "ok " ++ joinWith "|" (vs.map showV3)
+        | .error e => s!"err:{e}"
+      s!"W:{toHex text} R:{r}"
+    | none => "bad-request"
+  | "wktparse", [text] =>
+    match unhex? text with
+    | some t =>
+      match parseWkt t with
+      | .ok vs => "ok " ++ joinWith "|" (vs.map showV3)
+      | .error e => s!"err:{e}"
+    | none => "bad-request"
+  | "gpxaf", [geo, rf, name, naf, names, rows] =>
+    match geo.toNat?, unhex? rf, unhex? name, naf.toNat?, (splitTok names ',').mapM unhex? with
+    | some geo, some rf, some name, some naf, some names =>
+      match (splitTok rows ';').mapM (rowOf? naf) with
+      | some rws =>
+        if names.length ≠ naf then "bad-request" else
+        let text := gpxBodyAF name (rws.map (fun ra => (⟨ra.1.x, ra.1.y, ra.1.z, ra.1.t⟩, names.zip ra.2)))
+        let r := match readGpx (tokenize rf) (geo == 1) text with
+          | .ok ts => "ok " ++ joinWith "|" (ts.map (fun (t : List RRow) => joinWith ";" (t.map showRRow)))
+          | .error e => s!"err:{e}"
+        s!"W:{toHex text} R:{r}"
+      | none => "bad-request"
+    | _, _, _, _, _ => "bad-request"
   | _, _ => "bad-request"
 end TV.Drv.C13
